@@ -298,7 +298,7 @@ pub fn run(ctx: &mut Ctx) {
         }
         let mut rng = ctx.rng.fork();
         let t = match i % 5 {
-            _ if i % 501 == 7 && !ctx.miri => gen::big_doc(&mut rng),
+            _ if i % 4001 == 7 && !ctx.miri => gen::big_doc(&mut rng, ctx.tier == crate::monitor::Tier::Thorough && i % 5 == 0),
             0 => special_doc(&mut rng),
             1 => gen::scalar(&mut rng, false),
             _ => gen::doc(&mut rng, &gen::DOC_FINITE),
